@@ -47,6 +47,7 @@ type Opts struct {
 	SelectRotation bool // which ready select case wins is a (deviation-costed) choice
 	AllowCut       bool // reaching the horizon is not an error
 	FixedSchedule  bool // threads always run in the default order (cluster simulation: branching only at harness choices)
+	SigPrefix      func() string // classifies deadlock / horizon failures (evaluated when one is raised)
 }
 
 // Run executes body as thread 0 under the scheduler, drawing every decision from c. It
@@ -89,11 +90,15 @@ func Run(c *mc.Ctx, o Opts, body func()) *shim.Sched {
 		buf := make([]byte, 1<<20)
 		fmt.Fprintf(os.Stderr, "%s\n", buf[:runtime.Stack(buf, true)])
 	}
+	pre := ""
+	if o.SigPrefix != nil && (s.Deadlock || s.Cut) {
+		pre = o.SigPrefix()
+	}
 	if s.Deadlock {
-		c.FailSig("deadlock", "deadlock: no thread can run and no timer is pending: %s", s.Dump())
+		c.FailSig(pre+"deadlock", "deadlock: no thread can run and no timer is pending: %s", s.Dump())
 	}
 	if s.Cut && !o.AllowCut {
-		c.FailSig("horizon", "execution did not finish within %d steps / %d time advances: %s", s.MaxSteps, s.MaxAdvances, s.Dump())
+		c.FailSig(pre+"horizon", "execution did not finish within %d steps / %d time advances: %s", s.MaxSteps, s.MaxAdvances, s.Dump())
 	}
 	return s
 }
